@@ -269,6 +269,27 @@ def _check_table(kinds_tuple):
             else:
                 obs = got
             exp = (exp_res, exp_decs)
+            if obs == exp and got[0] == "ok" and oi == 0 and "~" not in line:  # (eval_alias treats its argument as an alias BODY: those words are expanded by design)
+                # the public resolver called directly (what sudo-style wrappers and `showcmd` do), twice:
+                # no state may survive from one resolution to the next
+                reps = []
+                for _ in range(2):
+                    d2 = []
+                    g2 = _observe(lambda: al.eval_alias(list(stripped), decorators=d2))
+                    n_eval += 1
+                    reps.append((_norm_result(al, g2[1]), user_decs + _norm_decs(al, d2)) if g2[0] == "ok" else g2)
+                want2 = exp if exp_res is not None else (list(stripped), exp_decs)
+                if reps[0] != want2 or reps[1] != want2:
+                    viols.append(
+                        common.Violation(
+                            key=f"eval_alias:{'state-survives-between-resolutions' if reps[0] != reps[1] or reps[0] == want2 else 'differs-from-get'}:{common.short_hash([table, line])}",
+                            clause="expansion",
+                            case={"table": {k: list(v) for k, v in table.items()}, "order": list(order), "line": list(line), "seam": "Aliases.eval_alias called twice"},
+                            observed=repr(reps),
+                            expected=repr(want2),
+                        )
+                    )
+                    break
             if obs != exp:
                 clause = "terminates" if got[0] != "ok" else ("order-independent" if first is not None and first == exp else "expansion")
                 rootcause = clause == "expansion" and _expanded_user_words(table, line, obs, exp)
@@ -335,14 +356,16 @@ def _run_cycles(ctx, threaded_modes=(True,), max_nodes=2):
 
     d = common.scratch_dir("c15run")
     results = []
-    names = ["a", "b", "c"]
-    # every functional graph on <=3 nodes where each alias is an exec alias "t && t2"
+    # every functional graph on <=3 nodes where each alias is an exec alias "t && t2"; under two namings:
+    # unrelated names, and names that contain one another (the call-stack guard compares names)
     shapes = []
-    for n in range(1, max_nodes + 1):
-        ns = names[:n]
-        for heads in itertools.product(ns + [EXT], repeat=n):
-            shapes.append(dict(zip(ns, heads)))
+    for names in (["a", "b", "c"], ["xx", "x", "xxx"]):
+        for n in range(1, max_nodes + 1):
+            ns = names[:n]
+            for heads in itertools.product(ns + [EXT], repeat=n):
+                shapes.append(dict(zip(ns, heads)))
     for shape, threaded in itertools.product(shapes, threaded_modes):
+        first = next(iter(shape))
         load_session(data_dir=d, path=[d], env={"THREAD_SUBPROCS": threaded, "XONSH_SUBPROC_RAISE_ERROR": False})
         for n, t in shape.items():
             XSH.aliases[n] = f"{t} arg && {EXT}"  # '&&' forces ExecAlias
@@ -350,7 +373,7 @@ def _run_cycles(ctx, threaded_modes=(True,), max_nodes=2):
 
         def go():
             with contextlib.redirect_stderr(err), contextlib.redirect_stdout(io.StringIO()):
-                XSH.execer.exec("a u1\n", glbs=XSH.ctx, locs=None)
+                XSH.execer.exec(first + " u1\n", glbs=XSH.ctx, locs=None)
             return "returned"
 
         old = sys.getrecursionlimit()
@@ -363,9 +386,22 @@ def _run_cycles(ctx, threaded_modes=(True,), max_nodes=2):
             ctx.violation(
                 key=f"run-cycle:{common.short_hash([shape, threaded])}",
                 clause="recursion through callable aliases is reported, not a hang",
-                case={"exec_aliases": shape, "line": "a u1", "threaded": threaded},
+                case={"exec_aliases": shape, "line": first + " u1", "threaded": threaded},
                 observed=[got, text[-400:]],
                 expected="terminates with 'Recursive calls' / command not found",
+            )
+        # an acyclic chain runs to its end: reporting recursion there is wrong
+        seen, cur = [], first
+        while cur in shape and cur not in seen:
+            seen.append(cur)
+            cur = shape[cur]
+        if ok and cur == EXT and "Recursive calls" in text:
+            ctx.violation(
+                key=f"run-chain:false-recursion-report:{'nested-names' if first == 'xx' else 'plain-names'}",
+                clause="each alias at most once per chain - a chain without a cycle is expanded to its end",
+                case={"exec_aliases": shape, "line": first + " u1", "threaded": threaded},
+                observed=text[-300:],
+                expected="the chain " + " -> ".join(seen + [EXT]) + " runs to its end (command not found: ext)",
             )
         results.append(({"graph": shape, "threaded": threaded}, got[0] + ("/recursive-calls-error" if "Recursive calls" in text else "/recursion-error" if "RecursionError" in text else "")))
     return results
